@@ -60,6 +60,7 @@ func init() {
 			e.assertTerm(cond, what)
 			return nil
 		},
+		pp + "verifEnvFixed": func(e *Exec, a []Value) Value { e.envFixed = a[0].(*Term).V != 0; return nil },
 		pp + "verifEpoch": func(e *Exec, a []Value) Value { e.epoch++; return nil },
 		pp + "verifObserve": func(e *Exec, a []Value) Value {
 			v := a[1]
